@@ -25,7 +25,7 @@ type CliTier struct {
 
 // CliTiers per tier name.
 var CliTiers = map[string]CliTier{
-	"quick":    {Scenarios: 160, Seeds: 1},
+	"quick":    {Scenarios: 260, Seeds: 1},
 	"thorough": {Scenarios: 4000, Seeds: 3},
 }
 
